@@ -260,7 +260,7 @@ Definition cwX (x : gst) (t : nat) (X : jc) : Prop :=
 Definition tfin (x : gst) : Prop := gfin (gh x) <> None /\ released (gh x) = true.
 Definition tdone_st (x : gst) : Prop :=
   fstate (gm x) tgt = ST_DONE /\ blocked (gm x) tgt = false /\ slot_wait (gm x) tgt = None /\
-  tfin x /\ reclaims (base x) = 0.
+  tfin x.
 
 Inductive tshape (x : gst) (t : nat) : stack jc -> Prop :=
 | sh_start p k : blocked (gm x) t = false -> slot_wait (gm x) t = None -> tpre x t ->
@@ -320,7 +320,7 @@ Inductive tshape (x : gst) (t : nat) : stack jc -> Prop :=
 | sh_tready j : t = tgt -> run x t -> mb (gh x) = MBTaken j tgt -> woken (gh x) = false -> gave (gh x) = true ->
     j <> tgt -> tfin x -> tshape x t [FStWrite j ST_READY; FC (TReady j)]
 (* target: state = DONE; done_fiber = self; yield; destroyed *)
-| sh_tdonew : t = tgt -> run x t -> tfin x -> reclaims (base x) = 0 -> tshape x t [FStWrite tgt ST_DONE; FC TDoneW]
+| sh_tdonew : t = tgt -> run x t -> tfin x -> tshape x t [FStWrite tgt ST_DONE; FC TDoneW]
 | sh_ty1 : t = tgt -> tdone_st x -> tshape x t [FStRead tgt; FC TY1]
 | sh_ty2 : t = tgt -> tdone_st x -> tshape x t [YNext ST_RUNNING; FC TY2]
 | sh_ty3 : t = tgt -> tdone_st x -> tshape x t [FStRead tgt; FC TY3]
@@ -389,3 +389,252 @@ Record Inv (x : gst) : Prop := {
   i_g : G x;
   i_sh : forall t, tshape x t (stk (base x) t)
 }.
+
+(* what one step of fiber t may change for the others *)
+Record rely (x x' : gst) (t : nat) : Prop := {
+  r_stk : forall u, u <> t -> stk (base x') u = stk (base x) u;
+  r_mb : mb (gh x') = mb (gh x) \/
+         (mb (gh x) = MBNone /\ (mb (gh x') = MBNever \/ mb (gh x') = MBPending t)) \/
+         (mb (gh x) = MBPending t /\ mb (gh x') = MBFull t) \/
+         (exists s, mb (gh x) = MBFull s /\ mb (gh x') = MBTaken s t /\ woken (gh x) = false);
+  r_wk : (woken (gh x') = woken (gh x) /\ forall u, u <> t -> blocked (gm x') u = blocked (gm x) u) \/
+         (woken (gh x) = false /\ woken (gh x') = true /\ mb (gh x') = mb (gh x) /\
+          (t = tgt -> gave (gh x) = true) /\
+          exists s, mb (gh x) = MBTaken s t /\ blocked (gm x') s = false /\
+                    forall u, u <> t -> u <> s -> blocked (gm x') u = blocked (gm x) u);
+  r_fst : forall u, u <> t -> fstate (gm x') u = fstate (gm x) u \/
+                              (mb (gh x) = MBTaken u t /\ woken (gh x) = false);
+  r_slot : forall u, u <> t -> slot_wait (gm x') u = slot_wait (gm x) u;
+  r_gfin : gfin (gh x') = gfin (gh x) \/ (t = tgt /\ gfin (gh x) = None);
+  r_ds : ds_of (base x') = ds_of (base x) \/ ds_of (base x') = D_WTJ \/ ds_of (base x') = D_DET \/
+         (t = tgt /\ ds_of (base x') = D_WFJ);
+  r_cell : (gave (gh x') = gave (gh x) /\ forall u, u <> t -> cell (gm x') (c_res u) = cell (gm x) (c_res u)) \/
+           (t = tgt /\ gave (gh x) = false /\ gave (gh x') = true /\ woken (gh x) = false /\
+            exists j R, mb (gh x) = MBTaken j tgt /\ gfin (gh x) = Some R /\ cell (gm x') (c_res j) = R /\
+                        forall u, u <> j -> cell (gm x') (c_res u) = cell (gm x) (c_res u));
+  r_na : na (gh x') = na (gh x) \/ taken_by_any x t;
+  r_nb : nb (gh x') = nb (gh x) \/ exists s, mb (gh x) = MBTaken s t;
+  r_late : forall u, u <> t -> late (gh x') u = late (gh x) u;
+  r_sd : stolen_d (gh x) = true -> stolen_d (gh x') = true;
+  r_sj : stolen_j (gh x) = true -> stolen_j (gh x') = true;
+  r_dwr : dwr (gh x) = true -> dwr (gh x') = true;
+  r_jwr : jwr (gh x) = true -> jwr (gh x') = true;
+  r_rel : released (gh x) = true -> released (gh x') = true
+}.
+
+Section Stable.
+  Variables (x x' : gst) (t u : nat).
+  Hypothesis HG : G x.
+  Hypothesis HR : rely x x' t.
+  Hypothesis Hut : u <> t.
+
+  Lemma st_mb_pending : mb (gh x) = MBPending u -> mb (gh x') = MBPending u.
+  Proof.
+    intros H. destruct (r_mb _ _ _ HR) as [E|[[E _]|[[E _]|[s [E _]]]]]; try congruence.
+  Qed.
+
+  Lemma st_mb_taken s v : mb (gh x) = MBTaken s v -> mb (gh x') = MBTaken s v.
+  Proof.
+    intros H. destruct (r_mb _ _ _ HR) as [E|[[E _]|[[E _]|[s' [E _]]]]]; try congruence.
+  Qed.
+
+  Lemma st_taken_any : taken_by_any x u -> taken_by_any x' u.
+  Proof. intros [v H]. exists v. now apply st_mb_taken. Qed.
+
+  Lemma st_gfin_some R : gfin (gh x) = Some R -> gfin (gh x') = Some R.
+  Proof. intros H. destruct (r_gfin _ _ _ HR) as [E|[_ E]]; congruence. Qed.
+
+  Lemma st_gfin_nn : gfin (gh x) <> None -> gfin (gh x') <> None.
+  Proof. intros H. destruct (r_gfin _ _ _ HR) as [E|[_ E]]; congruence. Qed.
+
+  Lemma st_woken : woken (gh x) = true -> woken (gh x') = true.
+  Proof. intros H. destruct (r_wk _ _ _ HR) as [[E _]|[E _]]; congruence. Qed.
+
+  Lemma st_nostolen : nostolen x' -> nostolen x.
+  Proof.
+    intros [A B]. split.
+    - destruct (stolen_d (gh x)) eqn:E; auto. rewrite (r_sd _ _ _ HR E) in A. discriminate.
+    - destruct (stolen_j (gh x)) eqn:E; auto. rewrite (r_sj _ _ _ HR E) in B. discriminate.
+  Qed.
+
+  Lemma st_tfin : tfin x -> tfin x'.
+  Proof. intros [A B]. split; [now apply st_gfin_nn | now apply (r_rel _ _ _ HR)]. Qed.
+
+  (* u is not the fiber asleep in the slot *)
+  Hypothesis Hna : forall X, stk (base x) u <> [Asleep; YLoop; FC X].
+
+  Lemma st_fstate : fstate (gm x') u = fstate (gm x) u.
+  Proof.
+    destruct (r_fst _ _ _ HR u Hut) as [E|[E W]]; auto.
+    destruct (g_asleep _ HG _ _ E W) as [X HX]. now apply Hna in HX.
+  Qed.
+
+  Lemma st_blocked : blocked (gm x') u = blocked (gm x) u.
+  Proof.
+    destruct (r_wk _ _ _ HR) as [[_ E]|[W [_ [_ [_ [s [E [_ B]]]]]]]]; auto.
+    destruct (Nat.eq_dec u s) as [->|N]; auto.
+    destruct (g_asleep _ HG _ _ E W) as [X HX]. now apply Hna in HX.
+  Qed.
+
+  Lemma st_run : run x u -> run x' u.
+  Proof.
+    intros [A [B C]]. unfold run. rewrite st_fstate, st_blocked, (r_slot _ _ _ HR u Hut). auto.
+  Qed.
+
+  Lemma st_tpre : tpre x u -> tpre x' u.
+  Proof.
+    intros H E. destruct (H E) as [A B]. split.
+    - destruct (r_gfin _ _ _ HR) as [F|[F _]]; congruence.
+    - destruct (r_ds _ _ _ HR) as [F|[F|[F|[F _]]]]; unfold D_WFJ, D_WTJ, D_DET in *; try congruence; lia.
+  Qed.
+
+  Lemma st_idle : idle x u -> idle x' u.
+  Proof. intros [A B]. split; [now apply st_run | now apply st_tpre]. Qed.
+
+  Lemma st_cell : woken (gh x) = true -> cell (gm x') (c_res u) = cell (gm x) (c_res u).
+  Proof.
+    intros W. destruct (r_cell _ _ _ HR) as [[_ E]|[_ [_ [_ [W' _]]]]]; auto. congruence.
+  Qed.
+
+  Lemma st_mail : woken (gh x) = true -> mail_ok x u -> mail_ok x' u.
+  Proof.
+    intros W H NS. destruct (H (st_nostolen NS)) as [R [A B]]. exists R. split.
+    - now apply st_gfin_some.
+    - now rewrite st_cell.
+  Qed.
+End Stable.
+
+Section Stable2.
+  Variables (x x' : gst) (t u : nat).
+  Hypothesis HG : G x.
+  Hypothesis HR : rely x x' t.
+  Hypothesis Hut : u <> t.
+
+  Lemma st_sleeper X : ~ taken_by_any x t -> sleeperX x u X -> sleeperX x' u X.
+  Proof.
+    intros NT [[A [B C]]|[A [B [C D]]]]; [left|right]; repeat split; auto.
+    - eapply st_gfin_nn; eauto.
+    - destruct (r_na _ _ _ HR) as [E|E]; [congruence | contradiction].
+    - now rewrite (r_late _ _ _ HR u Hut).
+  Qed.
+
+  Lemma st_isreg (P : Prop) : released (gh x) = true ->
+    (is_reg (mb (gh x)) = true -> P) -> is_reg (mb (gh x')) = true -> P.
+  Proof.
+    intros Rl H H'. apply H.
+    destruct (r_mb _ _ _ HR) as [E|[[E _]|[[E F]|[s [E [F _]]]]]].
+    - now rewrite <- E.
+    - now apply (g_relmb _ HG) in Rl.
+    - rewrite E. rewrite F in H'. exact H'.
+    - rewrite F in H'. discriminate.
+  Qed.
+
+  Lemma st_cw X : cwX x u X -> cwX x' u X.
+  Proof.
+    intros [[A [B [C D]]]|[[A [[p [k [r [B B']]]] [C D]]]|[A [B [C D]]]]].
+    - left. repeat split; auto. eapply st_gfin_nn; eauto. now apply (r_rel _ _ _ HR).
+    - right; left. repeat split; auto.
+      + exists p, k, r. split; auto. eapply st_gfin_some; eauto.
+      + now apply (r_rel _ _ _ HR).
+      + intros H. apply (r_jwr _ _ _ HR). revert H. now apply st_isreg.
+    - right; right. repeat split; auto.
+      + now apply (r_rel _ _ _ HR).
+      + intros H. apply (r_dwr _ _ _ HR). revert H. now apply st_isreg.
+  Qed.
+
+  Lemma st_tdone : (forall X, stk (base x) u <> [Asleep; YLoop; FC X]) -> u = tgt -> tdone_st x -> tdone_st x'.
+  Proof.
+    intros Hna -> [A [B [C D]]]. unfold tdone_st.
+    rewrite (st_fstate x x' t tgt HG HR Hut Hna), (st_blocked x x' t tgt HG HR Hut Hna), (r_slot _ _ _ HR tgt Hut).
+    split; [|split; [|split]]; auto. eapply st_tfin; eauto.
+  Qed.
+End Stable2.
+
+Section Stable3.
+  Variables (x x' : gst) (t u : nat).
+  Hypothesis HG : G x.
+  Hypothesis HR : rely x x' t.
+  Hypothesis Hut : u <> t.
+
+  Lemma st_woken_false j : mb (gh x) = MBTaken j u -> woken (gh x) = false -> woken (gh x') = false.
+  Proof.
+    intros E W. destruct (r_wk _ _ _ HR) as [[F _]|[_ [_ [_ [_ [s [F _]]]]]]]; congruence.
+  Qed.
+  Lemma st_gave_eq : u = tgt -> gave (gh x') = gave (gh x).
+  Proof. intros E. destruct (r_cell _ _ _ HR) as [[F _]|[F _]]; congruence. Qed.
+  Lemma st_na : ~ taken_by_any x t -> na (gh x') = na (gh x).
+  Proof. intros N. destruct (r_na _ _ _ HR) as [E|E]; [auto | contradiction]. Qed.
+  Lemma st_na_taken : taken_by_any x u -> na (gh x') = na (gh x).
+  Proof. intros [v E]. apply st_na. intros [w F]. congruence. Qed.
+  Lemma st_nb j : mb (gh x) = MBTaken j u -> nb (gh x') = nb (gh x).
+  Proof. intros E. destruct (r_nb _ _ _ HR) as [F|[s F]]; [auto | congruence]. Qed.
+  Lemma st_ds_nwfj : u = tgt -> ds_of (base x) <> D_WFJ -> ds_of (base x') <> D_WFJ.
+  Proof.
+    intros E N. destruct (r_ds _ _ _ HR) as [F|[F|[F|[F _]]]]; unfold D_WFJ, D_WTJ, D_DET in *; try congruence; lia.
+  Qed.
+  Lemma st_ds_nz : ds_of (base x) <> D_NONE -> ds_of (base x') <> D_NONE.
+  Proof.
+    intros N. destruct (r_ds _ _ _ HR) as [F|[F|[F|[_ F]]]]; unfold D_NONE, D_WFJ, D_WTJ, D_DET in *; try congruence; lia.
+  Qed.
+  Lemma st_late : late (gh x') u = late (gh x) u.
+  Proof. now apply (r_late _ _ _ HR). Qed.
+  Lemma st_nt_taken : taken_by_any x u -> ~ taken_by_any x t.
+  Proof. intros [v E] [w F]. congruence. Qed.
+  Lemma st_nt_full : mb (gh x) = MBFull u -> ~ taken_by_any x t.
+  Proof. intros E [w F]. congruence. Qed.
+  Lemma st_nt_pending : mb (gh x) = MBPending u -> ~ taken_by_any x t.
+  Proof. intros E [w F]. congruence. Qed.
+End Stable3.
+
+Section Stable4.
+  Variables (x x' : gst) (t u : nat).
+  Hypothesis HG : G x.
+  Hypothesis HR : rely x x' t.
+  Hypothesis Hut : u <> t.
+  Hypothesis Hna : forall X, stk (base x) u <> [Asleep; YLoop; FC X].
+  Lemma st_blocked_v v : blocked (gm x) u = v -> blocked (gm x') u = v.
+  Proof. intros <-. eapply st_blocked; eauto. Qed.
+  Lemma st_fstate_v v : fstate (gm x) u = v -> fstate (gm x') u = v.
+  Proof. intros <-. eapply st_fstate; eauto. Qed.
+End Stable4.
+Section Stable5.
+  Variables (x x' : gst) (t u : nat).
+  Hypothesis HG : G x.
+  Hypothesis HR : rely x x' t.
+  Hypothesis Hut : u <> t.
+  Lemma st_slot_v v : slot_wait (gm x) u = v -> slot_wait (gm x') u = v.
+  Proof. intros <-. now apply (r_slot _ _ _ HR). Qed.
+  Lemma st_na0 : ~ taken_by_any x t -> na (gh x) = O -> na (gh x') = O.
+  Proof. intros N <-. eapply st_na; eauto. Qed.
+  Lemma st_nb0 j : mb (gh x) = MBTaken j u -> nb (gh x) = O -> nb (gh x') = O.
+  Proof. intros E <-. eapply st_nb; eauto. Qed.
+  Lemma st_late_v v : late (gh x) u = v -> late (gh x') u = v.
+  Proof. intros <-. now apply (r_late _ _ _ HR). Qed.
+  Lemma st_gave_v v : u = tgt -> gave (gh x) = v -> gave (gh x') = v.
+  Proof. intros E <-. eapply st_gave_eq; eauto. Qed.
+  Lemma st_released : released (gh x) = true -> released (gh x') = true.
+  Proof. apply (r_rel _ _ _ HR). Qed.
+  Lemma st_jwr_reg : released (gh x) = true -> (is_reg (mb (gh x)) = true -> jwr (gh x) = true) ->
+    is_reg (mb (gh x')) = true -> jwr (gh x') = true.
+  Proof. intros Rl H H'. apply (r_jwr _ _ _ HR). revert H'. eapply st_isreg; eauto. Qed.
+  Lemma st_val v : (nostolen x -> gfin (gh x) = Some v) -> nostolen x' -> gfin (gh x') = Some v.
+  Proof. intros H NS. eapply st_gfin_some; eauto. apply H. eapply st_nostolen; eauto. Qed.
+End Stable5.
+
+Ltac not_asleep Hs := let X := fresh in let H := fresh in intros X H; rewrite Hs in H; discriminate H.
+
+Lemma stable x x' t u stku : G x -> rely x x' t -> u <> t -> stk (base x) u = stku ->
+  tshape x u stku -> tshape x' u stku.
+Proof.
+  intros HG HR Hut Hs H.
+  destruct H.
+  all: try (assert (Hna : forall X, stk (base x) u <> [Asleep; YLoop; FC X]) by not_asleep Hs).
+  all: try (econstructor; eauto 6 using st_run, st_idle, st_tpre, st_gfin_nn, st_gfin_some, st_mb_pending,
+              st_mb_taken, st_taken_any, st_woken, st_cw, st_tfin, st_tdone, st_sleeper, st_mail,
+              st_blocked_v, st_fstate_v, st_slot_v, st_na0, st_nb0, st_late_v, st_gave_v, st_released,
+              st_jwr_reg, st_val, st_woken_false, st_ds_nwfj, st_ds_nz, st_nt_taken, st_nt_full,
+              st_nt_pending; fail).
+  all: try (subst u; econstructor; eauto 6 using st_run, st_gfin_some, st_mb_taken, st_tfin, st_gave_v,
+              st_woken_false; fail).
+  all: idtac.
+Admitted.
